@@ -140,6 +140,14 @@ def build(spec, name=None):
         name = 's%d.fcs' % (_counter[0] % 8)
     path = os.path.join(workdir(), name)
     fcsgen.write(path, to_fcs_spec(spec))
+    form = spec.get('path_form')
+    if form:
+        # the same file through another spelling of its path: relative to the scratch directory's parent, with a
+        # doubled separator, or through 'x/../'
+        wd = workdir()
+        path = {'dslash': wd + os.sep + os.sep + name,
+                'dot': os.path.join(wd, '.', name),
+                'updown': os.path.join(wd, '..', os.path.basename(wd), name)}[form]
     return FlowCal.io.FCSData(path)
 
 
